@@ -169,12 +169,27 @@ def removeChildE (pf : Flags) (pk : CompKind) (key : Key) (cs : List (Key × Nod
   | some cs' => .ok cs'
   | none => .error .merge
 
-/-- Body of the key loop of `ComposedNode.on_merge_impl`; `rec` is the recursive merge. -/
+/-- The removed paths that lie below `key`, made relative to the child stored there: `q` for every
+    `key :: q` of `exc`. The Python code keeps absolute paths in `removed` and tests
+    `path + [key] + q in removed`; the model's paths are relative to the node being merged, so
+    descending into `key` strips it (`reqNew (excBelow key exc) q n` accepts what
+    `reqNew exc (key :: q) n` accepts: `reqNew_excBelow` in Lemmas/C05Siblings.lean). -/
+def excBelow (key : Key) : List Path → List Path
+  | [] => []
+  | [] :: rest => excBelow key rest
+  | (k :: q) :: rest => if k = key then q :: excBelow key rest else excBelow key rest
+
+/-- without exceptions (a non-deleting `other`: `exceptions=None`) there is nothing to strip -/
+@[simp] theorem excBelow_nil (key : Key) : excBelow key [] = [] := rfl
+
+/-- Body of the key loop of `ComposedNode.on_merge_impl`; `rec` is the recursive merge, `exc` the
+    `exceptions` handed to `_require_all_new` for a missing child (`removed if other.ayns.delete
+    else None`, relative to `self`). -/
 def mergeStep (rec : Node → Node → Except Err (Node × Bool)) (sf : Flags) (sk : CompKind)
-    (acc : List (Key × Node)) (kv : Key × Node) : Except Err (List (Key × Node)) :=
+    (exc : List Path) (acc : List (Key × Node)) (kv : Key × Node) : Except Err (List (Key × Node)) :=
   match getChild sk kv.1 acc with
   | none =>
-    match reqNew [] [] kv.2 with
+    match reqNew (excBelow kv.1 exc) [] kv.2 with
     | some p => .error (.notnew (kv.1 :: p))
     | none => setChild sf sk kv.1 kv.2 acc
   | some child =>
@@ -196,13 +211,13 @@ def mergeStep (rec : Node → Node → Except Err (Node × Bool)) (sf : Flags) (
             else setChild sf sk kv.1 nw acc
 
 /-- the key loop -/
-def mergeLoop (rec : Node → Node → Except Err (Node × Bool)) (sf : Flags) (sk : CompKind) :
-    List (Key × Node) → List (Key × Node) → Except Err (List (Key × Node))
+def mergeLoop (rec : Node → Node → Except Err (Node × Bool)) (sf : Flags) (sk : CompKind)
+    (exc : List Path) : List (Key × Node) → List (Key × Node) → Except Err (List (Key × Node))
   | acc, [] => .ok acc
   | acc, kv :: rest =>
-    match mergeStep rec sf sk acc kv with
+    match mergeStep rec sf sk exc acc kv with
     | .error e => .error e
-    | .ok acc' => mergeLoop rec sf sk acc' rest
+    | .ok acc' => mergeLoop rec sf sk exc acc' rest
 
 /-- the tail of `ComposedNode.on_merge_impl`: `_replace_self` / `_replace_other` with promotions -/
 def finishMerge (sf : Flags) (sk : CompKind) (scs : List (Key × Node)) (o : Node) :
@@ -236,11 +251,11 @@ def compMerge (rec : Node → Node → Except Err (Node × Bool)) (sf : Flags) (
           | .error e => .error e
           | .ok (res, sameAsOther) => .ok (propagate res, !sameAsOther)
       else
-        match mergeLoop rec sf sk r.1.children ocs with
+        match mergeLoop rec sf sk r.2 r.1.children ocs with
         | .error e => .error e
         | .ok scs' => finishMerge sf sk scs' o
     else
-      match mergeLoop rec sf sk scs ocs with
+      match mergeLoop rec sf sk [] scs ocs with
       | .error e => .error e
       | .ok scs' => finishMerge sf sk scs' o
 
